@@ -28,13 +28,6 @@ theorem forall_step {P : St → Call → Prop} [∀ s c, Decidable (P s c)]
     (h : ∀ s ∈ allSt, ∀ c ∈ allCall, P s c) (s : St) (c : Call) : P s c :=
   h s (mem_allSt s) c (mem_allCall c)
 
-def St.ord : St → Ord
-  | .defineResponse o => o
-  | .defineMulti o => o
-  | .quantifyRV o _ => o
-  | .quantify o => o
-  | .quantified o _ => o
-
 theorem step_ord (s s' : St) (c : Call) (h : step s c = some s') : s'.ord = s.ord := by
   have := forall_step (P := fun s c => ∀ s' ∈ allSt, step s c = some s' → s'.ord = s.ord) (by decide) s c
   exact this s' (mem_allSt s') h
